@@ -51,7 +51,9 @@ def request():
 
 def step():
     nak = st.tuples(st.just("nak"), st.lists(request(), min_size=0, max_size=4)).map(list)
-    return st.one_of(st.just(["adv"]), st.just(["adv"]), nak, nak, st.just(["ack_eof"]), st.just(["fin"]))
+    # "clk": the clock passes the next pending expiry without a call, so that the next PDU (a NAK, say) arrives in the very
+    # call that notices the expiry
+    return st.one_of(st.just(["adv"]), st.just(["adv"]), nak, nak, st.just(["ack_eof"]), st.just(["fin"]), st.just(["clk"]))
 
 
 @st.composite
@@ -59,7 +61,23 @@ def case_strategy(draw):
     cfg = draw(S.cfgs(modes=("ACK",), transports=("obj",), csums=("CRC_32", "CRC_32C", "MODULAR", "NULL_CHECKSUM")))
     cfg["max_seg"] = draw(st.sampled_from([1, 2, 3, 5, 8]))
     f = draw(S.file_specs(cfg, max_bytes=96, max_segments=12))
-    case = {"cfg": cfg, "file": f, "steps": draw(st.lists(step(), min_size=1, max_size=30))}
+    if draw(st.booleans()):
+        # structured shape: NAKs placed at chosen call indices (every index from the first call to the calls after the EOF
+        # equally likely, so that 'the call that emits the EOF' and 'right after a refused NAK' are hit often), half of them
+        # with an invalid request
+        eff0 = S.eff_seg_len(cfg)
+        nseg = (f["size"] + eff0 - 1) // eff0
+        nak = st.tuples(st.just("nak"), st.lists(request(), min_size=1, max_size=3)).map(list)
+        bad = st.tuples(st.just("nak"), st.lists(st.one_of(request(), st.just([["prog", 1], ["size", 3]]), st.just([["grid", 1], ["zero", 0]])), min_size=1, max_size=2)).map(list)
+        steps = []
+        for _ in range(draw(st.integers(1, 3))):
+            steps += [["adv"]] * draw(st.integers(0, nseg + 3))
+            steps.append(draw(st.one_of(nak, bad)))
+            if draw(st.integers(0, 4)) == 0:
+                steps.append(draw(st.sampled_from([["ack_eof"], ["clk"], ["fin"]])))
+        case = {"cfg": cfg, "file": f, "steps": steps}
+    else:
+        case = {"cfg": cfg, "file": f, "steps": draw(st.lists(step(), min_size=1, max_size=30))}
     if draw(st.integers(0, 2)) == 0:
         # optional TLVs of the put request travel in the Metadata PDU; a (0,0) request must bring back the same PDU
         case["opts"] = draw(S.request_options())
@@ -107,6 +125,8 @@ def _evaluate(case, cfg, s):
     nt = False
     sent_end = 0
     trace = []
+    tie = False
+    self_cancelled = False
     steps = [list(x) for x in case["steps"]] + [["adv"]] * (size // eff + 6)
     tail_from = len(case["steps"])
     for idx, stp in enumerate(steps):
@@ -115,6 +135,11 @@ def _evaluate(case, cfg, s):
         kind = stp[0]
         if idx >= tail_from and eofs:
             break
+        if kind == "clk":
+            if rig.tick():
+                tie = True
+                facts["tie"] = facts.get("tie", 0) + 1
+            continue
         step_before = h.step
         progress = h.progress
         pdu = None
@@ -151,6 +176,7 @@ def _evaluate(case, cfg, s):
         elif kind == "fin":
             pdu = FinishedPdu(sim.pdu_conf_for(cfg, cfg['seq_start']), FinishedParams(ConditionCode.NO_ERROR, DeliveryCode.DATA_COMPLETE, FileStatus.FILE_RETAINED))
         res = rig.call(pdu)
+        tie_now, tie = tie, False
         trace.append([kind, reqs if kind == "nak" else None, step_before.name, None if res.exc is None else type(res.exc).__name__, [sim.pdu_kind(p) + (f"@{p.offset}+{len(p.file_data)}" if sim.pdu_kind(p) == "FD" else "") for p in res.out][:8]])
         if res.exc is not None and not res.lib:
             facts["internal_error"] += 1
@@ -174,9 +200,11 @@ def _evaluate(case, cfg, s):
             elif k == "EOF":
                 got.append(("EOF",))
                 eofs.append(p)
+                if int(p.condition_code) != 0:
+                    self_cancelled = True
             else:
                 got.append((k,))
-        if vs:
+        if vs or self_cancelled:
             break
         if kind == "nak":
             must = step_before in (T.SENDING_FILE_DATA, T.WAITING_FOR_EOF_ACK, T.WAITING_FOR_FINISHED)
@@ -185,6 +213,9 @@ def _evaluate(case, cfg, s):
                 body = body[1:]  # the original Metadata PDU (first call of the transaction)
             if body and body[0] == ("EOF",) and len(eofs) == 1:
                 body = body[1:]  # original EOF emitted on the way
+            if tie_now:
+                # the call also noticed a timer expiry: a re-sent EOF next to the retransmission is not held against it
+                body = [x for x in body if x != ("EOF",)]
             body_is_retx = all(x[0] in ("FD", "MD") for x in body)
             if isinstance(res.exc, InvalidNakPdu):
                 facts["refused"] += 1
@@ -247,8 +278,15 @@ def _evaluate(case, cfg, s):
         else:
             if eofs and pos != size:
                 vs.append(verdict("resumes-exactly", "C08/original-stream-incomplete-at-eof", f"covered {pos} of {size}"))
+        if not eofs and not vs and rig.dead is None and h.state.name != "IDLE" and pos == size and not facts.get("tie"):
+            # every original File Data PDU went out and plenty of further calls were made, but the EOF never appeared
+            vs.append(verdict("eof-unchanged", f"C08/eof-never-emitted/{h.step.name}", f"all {size} bytes sent, handler in {h.step.name}, no EOF PDU was handed out"))
         want = models.ref_checksum(cfg["crc_type"], content)
         for e in eofs:
+            if int(e.condition_code) != 0 and facts.get("tie"):
+                # the clock was moved in this history: a positive ACK limit may have been reached, the EOF (cancel) that
+                # follows is the sender's own cancellation, not a changed EOF (C04 / C12 territory)
+                break
             if int(e.condition_code) != 0 or e.file_size != size or bytes(e.file_checksum) != want:
                 vs.append(verdict("eof-unchanged", "C08/eof-changed", f"cond {e.condition_code} size {e.file_size} checksum {bytes(e.file_checksum).hex()} want {size}/{want.hex()}"))
                 break
